@@ -18,8 +18,14 @@ LEVEL_TEXT = (
     "the one applied to If-Match admits a strong match and '*', the one applied to the If-Range tag admits a strong match "
     "(truth tables computed from the ETags methods' branch structure), each gets the unquoted response ETag and enters "
     "the verdict with the right polarity; parse_etags files weak and strong tags under the constructor parameter of that "
-    "name; (R11.2) the If-None-Match verdict replaces the date verdict by plain assignment and nothing but If-Match can "
-    "replace it afterwards; (R11.3) every non-None Last-Modified value reaching the date comparison passed the "
+    "name; (R11.2) precedence as a truth table: is_resource_modified is executed path by path with its conditions as "
+    "abstract booleans (ETag present, If-Range gate = not ignore_if_range / Range sent / If-Range carries a tag, "
+    "If-None-Match / If-Match parsed non-empty, the three comparison results; every other condition, the date tests "
+    "included, free) and the verdict as a value, so assignment, conditional set, conditional expression, flag local and "
+    "early return are the same thing: in every row where the response has an ETag the answer equals the If-Range tag "
+    "match when that gate is open, else the negated If-Match match when If-Match has tags, else the If-None-Match "
+    "match when If-None-Match has tags - no date verdict or earlier verdict survives into an answer for which an ETag "
+    "validator was due (rows with neither validator, and with both If-Match and If-None-Match, are not constrained); (R11.3) every non-None Last-Modified value reaching the date comparison passed the "
     "naive-or-convert UTC normalisation and a replace() that clears exactly the microseconds, the comparison is "
     "'not later than', and its verdict depends on nothing else; (R11.4) range processing, 304 and 412 are dominated by the "
     "GET/HEAD test, 304/412 by 'not modified' for the response's own ETag and Last-Modified, 412 by a non-empty If-Match; "
@@ -44,6 +50,7 @@ ASSUMPTIONS = [
     "If-None-Match and If-Match are not sent together (the property's domain)",
     "Range.ranges holds int starts (Range.__init__ rejects None, checked by R11.7) and callers pass an int or None length",
     "parse_date returns aware datetimes (or None) with whole seconds",
+    "is_resource_modified is reached with data=None (R11.4 checks this for the calls in Response); an ETags object without tags and without '*' is falsy and contains nothing; parse_etags of an absent or empty header has no tags",
 ]
 
 SAN = "werkzeug.sansio.http.is_resource_modified"
@@ -219,8 +226,7 @@ def _is_if_range_tag(A: FA, x: ast.AST) -> bool:
     return bool(vals) and all(isinstance(v, ast.Call) and A.resolve(v.func) == "werkzeug.http.parse_if_range_header" and len(v.args) == 1 and isinstance(v.args[0], ast.Name) and _only_param_def(A, v.args[0], "http_if_range") for v in vals)
 
 
-def rule_1(ctx: Ctx, A: FA, V: str, p_r: int, direct: list[ast.Return], model: ETagsModel) -> dict[str, list[ast.stmt]]:
-    """returns role -> verdict statements (assignments of V, or direct returns) (used by R11.2)."""
+def rule_1(ctx: Ctx, A: FA, V: str, p_r: int, direct: list[ast.Return], model: ETagsModel, T: H.VerdictTable) -> None:
     repo = ctx.repo
     R = "R11.1"
     san = A.fi
@@ -256,7 +262,12 @@ def rule_1(ctx: Ctx, A: FA, V: str, p_r: int, direct: list[ast.Return], model: E
             raise AnalysisError(f"{san.fq}: `{norm(c)}` is not a one-argument parse_etags call")
         x = c.args[0]
         role = None
-        if isinstance(x, ast.Name) and _only_param_def(A, x, "http_if_none_match"):
+        seen_as = T.site_roles.get(id(c), set())  # what the call parses on the executed paths (locals propagated)
+        if len(seen_as) > 1:
+            raise AnalysisError(f"{san.fq}: `{norm(c)}` parses different validators on different paths: {sorted(seen_as)}")
+        if seen_as:
+            role = next(iter(seen_as))
+        elif isinstance(x, ast.Name) and _only_param_def(A, x, "http_if_none_match"):
             role = "INM"
         elif isinstance(x, ast.Name) and _only_param_def(A, x, "http_if_match"):
             role = "IM"
@@ -276,6 +287,7 @@ def rule_1(ctx: Ctx, A: FA, V: str, p_r: int, direct: list[ast.Return], model: E
     ctx.floor(R, "parse_etags sites in is_resource_modified", sum(len(v) for v in sites.values()), 3)
 
     verdicts: dict[str, list[ast.stmt]] = {"INM": [], "IM": [], "IFR": []}
+    steered: dict[str, list[ast.Call]] = {"INM": [], "IM": [], "IFR": []}
     names = {"INM": "If-None-Match", "IM": "If-Match", "IFR": "If-Range tag"}
     want_odd = {"INM": 1, "IM": 0, "IFR": 1}
     ncmp = 0
@@ -327,20 +339,26 @@ def rule_1(ctx: Ctx, A: FA, V: str, p_r: int, direct: list[ast.Return], model: E
                 is_v = isinstance(st, ast.Assign) and len(st.targets) == 1 and astq.is_name(st.targets[0], V) or isinstance(st, ast.AugAssign) and astq.is_name(st.target, V)
                 is_ret = isinstance(st, ast.Return) and any(st is r for r in direct)
                 if not (is_v or is_ret) or not pure:
-                    raise AnalysisError(f"{san.fq}: result of `{norm(mc)}` does not enter the verdict `{V}` (or a return) through not/and/or only")
+                    # the comparison steers the verdict through control flow (`if not tags.contains(etag): V = True`,
+                    # a conditional expression, an intermediate flag): there is no single statement whose polarity
+                    # could be read off - polarity and precedence of this validator are decided by the truth table
+                    # of the whole function (R11.2), which does not depend on the spelling
+                    steered[role].append(mc)
+                    ctx.note(f"R11.1: `{norm(mc)}` steers the verdict through control flow; polarity and precedence of {names[role]} are decided by the R11.2 truth table")
+                    continue
                 verdicts[role].append(st)
                 # `return E` is `V = E'; return (not) V` with nothing in between: the function's result is E itself
                 odd = (nnot + (0 if is_ret else p_r)) % 2
                 how = "returned directly" if is_ret else f"with `return {'not ' if p_r else ''}{V}`"
                 ctx.ob(R, f"{names[role]}: a match means {'not modified' if want_odd[role] else 'precondition holds (modified / proceed)'}", odd == want_odd[role], f"`{norm(st)}` {how}: result is {'the negation of' if odd else 'equal to'} the match", san, st, f"{role} polarity")
     ctx.floor(R, "validator comparisons", ncmp, 3)
-    stray = [r for r in direct if not any(r is st for sts in verdicts.values() for st in sts)]
+    # a constant return (`return False` under a failed If-Match) is a verdict by control flow: the table decides it
+    stray = [r for r in direct if not any(r is st for sts in verdicts.values() for st in sts) and not (isinstance(r.value, ast.Constant) and isinstance(r.value.value, bool))]
     if stray:
         raise AnalysisError(f"{san.fq}: return value `{norm(stray[0].value)}` is neither the (negated) verdict variable nor a validator comparison")
 
     # ---- (c) parse_etags files weak / strong tags under the right constructor parameter
     _parse_etags_wiring(ctx, model)
-    return verdicts
 
 
 _COLLECTION_COPIES = {"list", "tuple", "set", "frozenset", "sorted"}
@@ -612,47 +630,40 @@ def _weak_flag(ctx: Ctx, PA: FA):
 # R11.2 precedence
 
 
-def rule_2(ctx: Ctx, A: FA, V: str, direct: list[ast.Return], verdicts: dict[str, list[ast.stmt]]) -> None:
+def _verdict_table(ctx: Ctx, A: FA, T: H.VerdictTable) -> int:
+    """the function's answer per path, with the conditions as abstract booleans, against the required table: whenever
+    an ETag validator is evaluated (RFC 9110 13.2.2: If-Range tag when the If-Range gate is open, else If-Match, else
+    If-None-Match) the answer is that comparison alone - the date verdict (or any earlier verdict) does not survive."""
     R = "R11.2"
     san = A.fi
-    names = {"INM": "If-None-Match", "IM": "If-Match", "IFR": "If-Range tag"}
-    alld = [d for ds in A.rd.gen.values() for d in ds]
-    ifr_vars = {d.name for d in alld if isinstance(d.value, ast.Call) and A.resolve(d.value.func) == "werkzeug.http.parse_if_range_header"}
-    grew = True
-    while grew:  # locals computed from the parsed If-Range only (range_tag = if_range.etag if if_range is not None else None)
-        grew = False
-        for d in alld:
-            if d.name not in ifr_vars and d.name != V and d.value is not None and d.kind in ("assign", "walrus") and astq.names_in(d.value) and astq.names_in(d.value) <= ifr_vars:
-                ifr_vars.add(d.name)
-                grew = True
+    rows, bad = T.check()
+    ctx.floor(R, "paths of is_resource_modified in the verdict table", len(T.outcomes), 6)
+    want = {
+        "IFR": "the answer is 'not modified' exactly when the tag matches",
+        "IM": "the answer is 'modified' (precondition holds) exactly when If-Match admits the ETag, 'not modified' (412) exactly when it does not",
+        "INM": "the answer is 'not modified' exactly when If-None-Match matches",
+    }
+    when = {
+        "IFR": "If-Range is taken into account, a Range is sent and If-Range carries a tag",
+        "IM": "If-Match is sent (without If-None-Match, no If-Range tag in force)",
+        "INM": "If-None-Match is sent (without If-Match, no If-Range tag in force)",
+    }
     n = 0
-    for role in ("INM", "IFR", "IM"):
-        for st in verdicts[role]:
-            n += 1
-            plain = isinstance(st, (ast.Assign, ast.Return)) and V not in astq.names_in(st.value)  # type: ignore[arg-type]
-            ctx.ob(R, f"{names[role]} verdict replaces the earlier verdict (plain assignment, not combined with it)", plain, f"`{norm(st)}`", san, st, f"{role} verdict plain")
-    for st in verdicts["INM"]:
-        node = A.node(st)
-        allowed = (astq.names_in(st.value) - {V}) | {"etag"} | ifr_vars  # type: ignore[attr-defined]
-        # ... and what the parsed header was computed from (`if (inm := parse_etags(http_if_none_match)):`)
-        for x in [x for x in ast.walk(st.value) if isinstance(x, ast.Name) and x.id != V]:  # type: ignore[attr-defined]
-            for d in A.defs(x):
-                if d.value is not None and d.kind in ("assign", "walrus"):
-                    allowed |= astq.names_in(d.value) - {V}
-        extra = []
-        for t_, l in A.guards(node):
-            nm = astq.names_in(t_.ast) if t_.ast is not None else set()
-            if not nm <= allowed:
-                extra.append(f"{norm(t_.ast)} is {'true' if l == 'T' else 'false'}")
+    for role in ("IFR", "INM", "IM"):
+        mine = sorted((m for m in bad if m.role == role), key=lambda m: (m.row.get("ign_truthy") is not True, len(m.outcome.val)))
+        if not rows[role]:
+            raise AnalysisError(f"{san.fq}: the verdict table has no row in which {when[role]}")
         n += 1
-        ctx.ob(R, "If-None-Match decides whenever it is sent and the response has an ETag", not extra, f"`{norm(st)}` additionally requires: {extra}" if extra else f"`{norm(st)}` is conditioned only on the ETag / the parsed header / If-Range", san, st, "INM verdict guards")
-        reach = A.cfg.reach(node)
-        later = [dn for dn in A.def_nodes_of(V) if dn is not node and dn.id in reach]
-        later += [A.node(r) for r in direct if r is not st and A.node(r).id in reach]
-        bad = [dn for dn in later if not any(dn.ast is s for s in verdicts["IM"])]
-        n += 1
-        ctx.ob(R, "after the If-None-Match verdict only If-Match can change the verdict (the date verdict comes first)", not bad, f"assignments of `{V}` reachable after `{norm(st)}`: {[dn.text() for dn in later]}", san, bad[0].ast if bad else st, "INM verdict final")
-    ctx.floor(R, "precedence obligations", n, 5)
+        fact = f"{rows[role]} row(s) of the truth table (response has an ETag, {when[role]}; every other condition free) over {len(T.outcomes)} paths: " + (f"{len(mine)} contradict, e.g. {T.describe(mine[0])}" if mine else "all answer with the comparison alone")
+        ctx.ob(R, f"{H._ROLE_NAME[role]} alone decides when {when[role]}: {want[role]}, whatever the dates say", not mine, fact, san, mine[0].outcome.ret if mine and mine[0].outcome.ret is not None else san.node, f"{role} decides alone")
+    return n
+
+
+def rule_2(ctx: Ctx, A: FA, T: H.VerdictTable) -> None:
+    """precedence, decided on the value of the function's answer per path (not on the shape of the verdict statements:
+    plain assignment / conditional set / early return / reordered validators give the same table)."""
+    n = _verdict_table(ctx, A, T)
+    ctx.floor("R11.2", "precedence obligations", n, 3)
 
 
 # ---------------------------------------------------------------------
@@ -1859,7 +1870,7 @@ def rule_8(ctx: Ctx) -> None:
 
 RULES = {
     "R11.1": "each validator header reaches its own parameter; the ETags predicate applied to If-None-Match is weak|strong|star, to If-Match admits strong and '*', to the If-Range tag admits strong - each on the unquoted response ETag and entering the verdict with the right polarity; parse_etags files weak / strong / star members under the constructor parameter of that name",
-    "R11.2": "the If-None-Match (If-Range tag, If-Match) verdict is a plain assignment that replaces the date verdict; once If-None-Match has decided only If-Match can change the verdict; If-None-Match decides whenever it is sent and the response has an ETag",
+    "R11.2": "truth table of sansio is_resource_modified (its CFG executed with every condition as an abstract boolean, the verdict carried as a value per path): whenever the response has an ETag and an ETag validator is evaluated - the If-Range tag when If-Range is in force, else If-Match, else If-None-Match (RFC 9110 13.2.2) - the answer is that comparison alone: 'not modified' iff the If-Range tag / If-None-Match matches, 'modified' iff If-Match admits; no date verdict or earlier verdict survives, whatever the other conditions",
     "R11.3": "every non-None Last-Modified reaching the date comparison went through _dt_as_utc and a replace() that clears the microseconds and nothing else; the comparison is 'not later than'; its verdict depends only on the two dates; _dt_as_utc relabels only naive values and converts aware ones",
     "R11.4": "in make_conditional range processing and the 304/412 assignments are dominated by REQUEST_METHOD in {GET, HEAD}; 304/412 by not-modified against the response's own validators; 412 by a non-empty If-Match, 304 by its absence; the 206 path by _is_range_request_processable, which is true only with a Range header and an absent or satisfied If-Range (ignore_if_range=False)",
     "R11.5": "Content-Length, Content-Range, the _RangeWrapper window and status 206 derive from one range_for_length / to_content_range_header pair on one parsed Range and one complete length; status is set before the conditional wrap; all four precede `return True` and none precedes `return False`; Content-Range renders start-(stop-1)/length of the same range_for_length",
@@ -1880,8 +1891,9 @@ def run(ctx: Ctx) -> None:
     A = FA(repo, san)
     V, p_r, direct = _verdict(A)
     model = ETagsModel(ctx)
-    verdicts = rule_1(ctx, A, V, p_r, direct, model)
-    rule_2(ctx, A, V, direct, verdicts)
+    T = H.VerdictTable(A)
+    rule_1(ctx, A, V, p_r, direct, model, T)
+    rule_2(ctx, A, T)
     rule_3(ctx, A, V, p_r)
     rule_4(ctx)
     resp = repo.cls(RESP)
